@@ -6,7 +6,9 @@ from vlib.core import Case
 ID = "C15"
 LEAN_MODULE = "Ctrmml.Properties.C15"
 THEOREMS = ["C15_parse_routed", "C15_reader_never_foreign", "C15_wav_reader_total", "C15_validator_never_out_of_range",
-            "C15_validate_routed", "C15_parsed_song_validates", "C15_pipeline_total_partial", "C15_pipeline_terminates", "C15_modelled_components_never_foreign"]
+            "C15_validate_routed", "C15_parsed_song_validates", "C15_optimize_routed", "C15_optimizer_never_foreign", "C15_stack_lists_complete",
+            "C15_mds_export_no_ub", "C15_mds_export_routed", "C15_link_stage_kinds", "C15_pipeline_total_partial", "C15_pipeline_total_mds_partial", "C15_pipeline_terminates",
+            "C15_modelled_components_never_foreign"]
 LEVEL = "other"
 STREAM = "total"
 HARNESS_VARIANT = "align"      # the C15 harness keeps UBSan's alignment check (D22)
@@ -23,18 +25,21 @@ RULE = ("byte strings given as an MML file (+ side files): corpus of every defec
         "through the mds export, and a share through the vgm export, the optimiser (-O) and mdslink's path, in-process under "
         "ASan+UBSan (alignment check on) in a forked child; a sample is also given to the built mmlc/mdslink executables. "
         "non-trivial = every case (all carry tags); distinct by request text")
-EXPLANATION = ("Proof side (Properties/C15): the pipeline model (Model/Pipeline) composes the stage models of the other properties; the parse stage "
-               "(whole MML reader, every byte string), the validate stage (every song without explicit END events — which includes every song the reader can produce) and sample loading (every byte "
-               "string as a WAV file) are theorems: their outcome is never `foreign`; the optimiser, the mds converter's UB constructors and three "
-               "residual stages without a model (VGM play loop, linker, definitions outside C09/C11's models) are explicit "
-               "hypotheses of the composite theorem. Execution side: every generated text runs through the real code in-process under ASan+UBSan "
-               "(alignment check on) in a forked child; the judge applies the outcome set {ok, InputError with a message} to the implementation's "
+EXPLANATION = ("Proof side (Properties/C15): the pipeline model (Model/Pipeline) composes the stage models of the other properties: MML reader, tags, validator, optimiser, "
+               "MDSDRV converter (definitions, track writer, codec, RIFF), MD_Driver + VGM_Writer (Model/MdDriver, for the songs of its subset) and MDSDRV_Linker (Model/Linker on the exported container). "
+               "Theorems, each for ALL inputs of its stage: the parse stage (whole MML reader, every byte string), the validate stage (every song without explicit END events — which includes every "
+               "song the reader can produce), sample loading (every byte string as a WAV file), the optimise stage (every validated song that satisfies the decidable side conditions OptDomain of C01's "
+               "termination theorem: pass loop ends, no stack list read outside its bounds, no get_track on a missing track, the validator after a pass ends) and the converter's undefined-behaviour "
+               "constructors (no RIFF-writer failure, no at() on an empty stream, no data_bank index outside the bank, no vector::at in the writer's player — for every input). Still explicit hypotheses of the composite "
+               "theorem: the MODEL's fixed writer budget (20 000 000 player steps per stream, recursion depth 64), VgmNoUB (the driver model reports no vector::at / non-integer step / writer fault), LinkOK (the linker model accepts "
+               "the converter's file or rejects it with an InputError), OptInDomain (with -O), and two residual stages without a model (VGM play loop outside Model/MdDriver's subset, definitions / platform commands outside C09/C11's models). "
+               "Execution side: every generated text runs through the real code in-process under ASan+UBSan (alignment check on) in a forked child; the judge applies the outcome set {ok, InputError with a message} to the implementation's "
                "answer. Correspondence: the compiled pipeline model (Driver/Total.lean) names the first stage whose outcome is not ok and its class "
-               "(ok / input_error@stage / foreign@stage) and is compared per stage with the harness' answer (checks/c15.py agree()); `unmodelled@S` "
-               "answers only claim that stage S is reached (VGM play loop, linker, register-name platform commands, PCM files of a real directory). "
-               "BOUNDS of the model stream (the implementation still runs these inputs under the sanitizers, the model answers `skipped`): MML text "
-               "over 6000 bytes (1500 with -O), more than 120 events with -O (optimiser search is cubic), a definition with more than 100 values, "
-               "and runs that exhaust the executable model's step budget (validator 3*10^6 steps, optimiser 10^5 passes); the theorems are not bounded. "
+               "(ok / input_error@stage / foreign@stage) and is compared per stage with the harness' answer (checks/c15.py agree()), now including the link stage (Model/Linker) and the VGM export (Model/MdDriver); `unmodelled@S` "
+               "answers only claim that stage S is reached (VGM export of songs with platform commands, portamento, pitch envelopes or macro tracks; register-name platform commands; PCM files of a real directory); the notes of the run give "
+               "their share per format. BOUNDS of the model stream (the implementation still runs these inputs under the sanitizers, the model answers `skipped`): MML text "
+               "over 6000 bytes (1500 with -O), more than 120 events with -O (optimiser search is cubic), a definition with more than 100 values, a VGM export of a channel track longer than 1500 ticks or with a tempo parameter below 24 "
+               "(the driver model iterates once per 1/60 s), and runs that exhaust the executable model's step budget (validator 3*10^6 steps, optimiser 10^5 passes); the theorems are not bounded. "
                "Stream wavfix (Wave_Bank::add_sample(Tag) on canonical and malformed WAV files, in a forked child) is diffed literally against C14's "
                "model of the reader (Model/Wave).")
 ASSUMPTIONS = ["a run that is still computing after 8 s of CPU time (90 s with -O) under ASan is counted as a hang; inputs whose legitimate cost exceeds that (a 70000-command line: the reader copies the line once per command; -O on tracks of tens of thousands of events or thousands of tracks) are not generated",
@@ -336,6 +341,11 @@ CORPUS = [
     ("A o-2147483647 < c", "octave"), ("A o2147483647 >> c", "octave"), ("@M1 V0:1:1073741824\nA M1 o4 c", "boundary"), ("@M1 V0:1:2147483647\nA M1 o4 c", "boundary"),
     ("A o4 cdefg *40000 cdefg cdefg\n*40000 o4 cdefgab cdefgab cdefgab", "d3"), ("A o4 cdefg *65535 cdefg cdefg\n*65535 o4 cdefgab cdefgab cdefgab", "d3"),
     ("A o4 cdefg *32767 cdefg cdefg\n*32767 o4 cdefgab cdefgab cdefgab", "d3"),
+    # raw 'cmd' platform command: any MDSDRV event; loop end / loop break outside a loop (fix c5dd456: was top() of an empty stack)
+    ("A 'cmd 251 2' c", "raw-cmd"), ("A 'cmd 252 0' c", "raw-cmd"), ("A P100 c\n*100 'cmd 252 0' c", "raw-cmd"), ("A P100 c\n*100 'cmd 251 3' c", "raw-cmd"),
+    ("A [c 'cmd 252 0' d]2", "raw-cmd"), ("A 'cmd 250 0' c 'cmd 251 2'", "raw-cmd"), ("A 'cmd 250' c", "raw-cmd"), ("A 'cmd 245 0' c", "raw-cmd"), ("A 'cmd 255 0' c 'cmd 251 1'", "raw-cmd"),
+    ("A 'cmd 254 7' c", "raw-cmd"), ("A 'cmd 254 300' c", "raw-cmd"), ("A 'cmd 225 9' c", "raw-cmd"), ("A 'cmd 235 1' c", "raw-cmd"), ("A 'cmd' c", "raw-cmd"), ("A 'cmd x y' c", "raw-cmd"),
+    ("A 'cmd 253 1' c", "raw-cmd"), ("A 'cmd 232 4' c", "raw-cmd"), ("A 'cmd 240 2' c", "raw-cmd"), ("G 'cmd 251 2' c", "raw-cmd"), ("A *100\n*100 'cmd 251 2' c", "raw-cmd"),
     ("A t150 o4l4 @1 cdef\n" + FM_OK, "ordinary"), ("G o4l4 cdef\nH o3 l8 cdefgab\nJ c4 r4", "ordinary"), ("ABCDEF o4 l4 cdefg", "ordinary"),
 ]
 
@@ -530,7 +540,8 @@ def song_cases(rng, tier):
 ALPHABET = "abcdefghr^&o<>lQqR~Cs\\[]/L*'@_kKv()VpEMPGDtT{}|;%+-=.:,$x0123456789 \t\n#\"ABCGHIJKZ"
 CMDS = ["c", "d", "e", "f", "g", "a", "b", "h", "r", "^", "&", "o", "<", ">", "l", "Q", "q", "R", "~", "C", "s", "\\", "\\=", "[", "]", "/", "L", "*", "'", "@", "_", "__", "_{", "k", "K", "v",
         "(", ")", "V", "V+", "V-", "p", "E", "M", "P", "G", "D", "t", "T", "{", "}", "|", ";", "%", "+", "-", "=", ".", ":", ","]
-PLATFORM_CMDS = ["fm3 0011", "fm3 1111", "fm3", "lfo 1 2", "lfo", "lforate 3", "mode 1", "pcmmode 3", "pcmrate 4", "write 48 5", "write tl1 9", "write x", "tl1 +5", "tl3 40", "carry", "bogus", ""]
+PLATFORM_CMDS = ["fm3 0011", "fm3 1111", "fm3", "lfo 1 2", "lfo", "lforate 3", "mode 1", "pcmmode 3", "pcmrate 4", "write 48 5", "write tl1 9", "write x", "tl1 +5", "tl3 40", "carry", "bogus", "",
+                 "cmd 250 0", "cmd 251 2", "cmd 252 0", "cmd 254 1", "cmd 225 0", "cmd 245", "cmd"]
 
 
 def rnd_num(rng):
@@ -659,6 +670,36 @@ def agree(case, impl, model):
     return False
 
 
+def model_notes(cases, impl, model):
+    """how much of the run the stage models cover: the model's answers by class, per format (the
+    `unmodelled@…` answers are the `Residual`s of Model/Pipeline; `skipped` the bounds of the model stream)"""
+    fmts = {"m": "mds", "v": "vgm", "l": "link"}
+    hist = {}
+    for c, m in zip(cases, model):
+        t = c.req.split(" ")
+        if t[0] not in ("total", "tool") or len(t) < 2:
+            continue
+        f = fmts.get(t[1][:1], "?")
+        k = re.sub(r"^(foreign@\w+):.*", r"\1", m)
+        k = m.split(":")[0] if m.startswith(("unmodelled@", "skipped", "foreign@")) else k
+        hist.setdefault(f, {})
+        hist[f][k] = hist[f].get(k, 0) + 1
+    out = []
+    for f in ("mds", "vgm", "link"):
+        h = hist.get(f, {})
+        tot = sum(h.values())
+        if not tot:
+            continue
+        un = sum(v for k, v in h.items() if k.startswith("unmodelled@"))
+        sk = sum(v for k, v in h.items() if k.startswith("skipped"))
+        reach = sum(v for k, v in h.items() if k in ("ok", "input_error@export", "input_error@link", "foreign@export", "foreign@link") or k.startswith("unmodelled@"))
+        full = sum(v for k, v in h.items() if k in ("ok", "input_error@export", "input_error@link"))
+        out.append("model answers, format %s: %d cases; %d reach the export stage, of these %d (%.1f%%) are answered by the stage models to the end "
+                   "(ok / input_error@export / input_error@link) and %d are `unmodelled@…`; skipped (stream bounds) %d; classes: %s"
+                   % (f, tot, reach, full, 100.0 * full / reach if reach else 0.0, un, sk, ", ".join("%s x%d" % kv for kv in sorted(h.items()))))
+    return out
+
+
 def outcome_class(ans):
     if ans.startswith(("r=", "exc:")):
         return "wavfix:" + ans.split(" ")[0].split("=")[0]
@@ -727,6 +768,7 @@ def shrink(req):
 
 
 TECHNIQUE = ("Lean 4 proof of outcome totality per modelled stage (weakest-precondition calculus over the MML reader; stack-frame invariant + C04 for the validator; "
+             "C01's termination measure + a stack-list completeness invariant + validator stability for the optimiser; bank-index and player invariants by induction over the mutually recursive track writer for the converter; "
              "C14 for the WAV reader; composition theorem with explicit stage hypotheses) + sanitizer-instrumented execution of the real pipeline on generated inputs "
              "(ASan+UBSan incl. alignment, forked child, CPU limit) + per-stage differential correspondence pipeline model <-> implementation")
 LEVEL_TEXT = ("Level `other` (mixed proof + execution, stated as partial). PROVED over the Lean models, for ALL inputs of the stage: (1) parse — for every byte string given "
@@ -734,14 +776,23 @@ LEVEL_TEXT = ("Level `other` (mixed proof + execution, stated as partial). PROVE
               "Line_Buffer/MML_Input/Track, or an exhausted loop (C15_parse_routed, C15_reader_never_foreign); (2) validate — Song_Validator on every song without explicit END events "
               "terminates in success or one of the player's messages, and its vector::at can never throw (C15_validate_routed, C15_validator_never_out_of_range; from C04 + a new invariant); "
               "(3) sample files — load_file + Wave_File::read on every byte string return a decoded file or 'not found' without reading outside the buffer or stalling (C15_wav_reader_total, from C14); "
-              "(4) RIFF reader, conf parser, VGM writer have no UB outcome (collected from C13/C20/C08); (5) the composition: if the optimiser stage, the mds converter's UB constructors and the "
-              "three residual stages are routed then the whole pipeline is, with enough validator steps and optimiser passes (C15_pipeline_total_partial, C15_pipeline_terminates). "
-              "NOT PROVED, tested: optimiser termination/UB-freedom, the converter's UB constructors, the VGM play loop (MD_Driver), the linker, instrument/platform-command inputs outside the "
+              "(4) optimise — for every validated song in the decidable domain OptDomain (ids in order and below 32767, tracks shorter than 32767 events, LOOP_BREAKs without duration, int16 JUMP/NOTE parameters, "
+              "initialSubId + totalEvents < 32767) Optimizer::optimize ends in the optimised song or an InputError with a message: the pass loop ends (C01), analyze_stack builds a complete stack list for every track so "
+              "find_match_length never reads event_list outside its bounds, Song::get_track is never called on a missing track, and the Song_Validator run after every pass ends — the run with the executable validator is "
+              "shown equal to the run with the ideal validator (C15_optimize_routed, C15_optimizer_never_foreign, C15_stack_lists_complete); (5) export mds — for EVERY input the converter model never fails in the RIFF writer, "
+              "never reports at() on an empty stream, never indexes data_bank outside the bank and its writer's player never hits the vector::at of the final-pass break (C15_mds_export_no_ub, C15_mds_export_routed); the two other "
+              "undefined-behaviour constructors of the model were REACHABLE and are repaired in the repository: header_size wrapping at 16 bits (8d409a9) and a raw `cmd` loop end outside a loop = top() of an empty std::stack, SIGSEGV (c5dd456); "
+              "(6) RIFF reader, conf parser, VGM writer have no UB outcome (collected from C13/C20/C08); (7) the composition (C15_pipeline_total_partial, C15_pipeline_terminates) and the mds path without -O with no residual at all under two hypotheses "
+              "decided by evaluation (C15_pipeline_total_mds_partial). "
+              "NOT PROVED, tested: the MODEL's writer budget (20 000 000 steps per stream, depth 64), the driver model's vector::at / non-integer-step / writer-fault outcomes (VgmNoUB), that the linker accepts what the converter wrote (LinkOK), "
+              "songs outside OptDomain with -O, the VGM play loop outside Model/MdDriver's subset, instrument/platform-command inputs outside the "
               "C09/C11 models; and — for every stage — memory safety / UB-freedom of the compiled binary, which is observed by ASan+UBSan (alignment on) on generated inputs in a forked child "
               "with CPU limits, every outcome other than ok or an InputError with a message being a finding keyed by (class, first repository frame).")
-LEVEL_NOTE = ("Partial by construction. UNDER A THEOREM (all inputs): MML reader (parse stage), track/song validator, WAV loader, RIFF get_chunk/constructor, Conf::from_string, VGM_Writer buffer "
-              "arithmetic, composition of stage outcomes. HYPOTHESES of the composite theorem (StageHyps, Proofs/PipelineStages): optimizeStage routed (C01 does not prove termination), MdsNoUB "
-              "(Model/MdsFile never returns codec/headerWrap/bankIndex/riff/fuel), Residual routed (VGM play loop, linker, definitions or platform commands outside Model/MdsData / MdsPlatform). ONLY UNDER SANITIZER EXECUTION: those hypotheses, the tools' main(), and memory safety of the real "
-              "binary in every stage. The executable pipeline model is compared per stage with the implementation on every generated input within stated bounds (EXPLANATION). Trusted: g++/ASan/UBSan "
+LEVEL_NOTE = ("Partial by construction. UNDER A THEOREM (all inputs): MML reader (parse stage), track/song validator, optimise stage on OptDomain, WAV loader, the converter's undefined-behaviour constructors (RIFF writer, at() on an "
+              "empty stream, data_bank index, the writer's vector::at), RIFF get_chunk/constructor, Conf::from_string, VGM_Writer buffer arithmetic, composition of stage outcomes. HYPOTHESES of the composite theorem "
+              "(StageHyps, Proofs/PipelineCompose): MdsBudgetOK (the model's own writer budget — not a property of the code), VgmNoUB (Model/MdDriver never returns oob / nonInteger / a VGM_Writer fault), LinkOK (Model/Linker accepts the "
+              "converter's output or rejects it with an InputError), OptInDomain (with -O: the parsed song satisfies OptDomain; decidable, checked by the model stream on every -O case), Residual routed (VGM play loop outside "
+              "Model/MdDriver's subset, definitions or platform commands outside Model/MdsData / MdsPlatform). ONLY UNDER SANITIZER EXECUTION: those hypotheses, the tools' main(), and memory safety of the real "
+              "binary in every stage. The executable pipeline model — now including the linker and the VGM driver — is compared per stage with the implementation on every generated input within stated bounds (EXPLANATION). Trusted: g++/ASan/UBSan "
               "runtimes, harness/h_total.cpp, the CPU limit as the definition of a hang, the Lean kernel and compiler, the hand-written models (Mml, Lexer, TrackBuilder, Tags, Player, Optimizer, "
-              "MdsData, MdsConv, MdsFile, Wave, Riff) whose agreement with the code is established by differential testing here and in C01/C04/C05/C09/C11/C14/C17/C18, not proved.")
+              "MdsData, MdsConv, MdsFile, MdDriver, Linker, Wave, Riff) whose agreement with the code is established by differential testing here and in C01/C04/C05/C07/C08/C09/C10/C11/C14/C17/C18, not proved.")
